@@ -141,20 +141,22 @@ def run(tier):
         sc.update(gap_ms=rng.choice([180, 250]) if ng == 2 else rng.choice([300, 400]), ttl_ms=1000, span=ng)
         scen.append(sc)
     # bursts: the producer outruns the global-window goroutine (held at its first row) by more rows than the window's input queue
-    # holds (50 by default): every row still counts towards its group's aggregates and trigger, in order
+    # holds (200 here): every row still counts towards its group's aggregates and trigger, in order
     for _ in range(6 if quick else 150):
         pred = rng.choice(["count>=2", "sum>3", "count>=3|max>=3", "sum>3|count>=3"])
         groups = ["a", "b", "c"][:rng.choice([1, 2, 3])]
-        hist = [{"g": rng.choice(groups), "v": rng.choice([0, 1, 2, 3, 5])} for _ in range(rng.choice([70, 90, 130]))]
+        hist = [{"g": rng.choice(groups), "v": rng.choice([0, 1, 2, 3, 5])} for _ in range(rng.choice([230, 260, 300]))]
         sc = scenario(pred, hist, rng.randrange(len(SELECTS)), rng, "mix", "upper")
-        sc.update(burst=True, hold="gw.row")
+        # one option sizes the window's input AND output queue: 200 is less than the burst (the input queue is overrun) and more than the
+        # results the burst can fire (at most one per two rows: the output queue never overflows - assumption)
+        sc.update(burst=True, hold="gw.row", perf={"winout": 200})
         scen.append(sc)
     seqfam.run_scenarios(res, scen, "TraceBatch", tag="global", relayout_p=0.3, retype_p=0.3, rename_p=0.3)
     seqfam.run_pinned(res, "TraceBatch")
     res.cov["distinct_nontrivial"] = len({json.dumps(s["rows"], sort_keys=True) + s["sql"] for s in scen})
     res.cov["rule"] = ("every row sequence (2 groups x values {NULL,-1,1,3}) of the TLA+ GlobalWin model up to the stated length for each of 8 predicates "
                        "(single comparisons, AND, OR, OR-of-AND), 3 SELECT shapes (trigger aggregates selected / not selected / differently spelled), NULL vs missing, "
-                       "replayed in lock-step on the real engine, plus seeded longer runs with up to 4 groups, plus unthrottled bursts of 70-130 rows against a window goroutine held at its first row; distinct = distinct (SQL, rows)")
+                       "replayed in lock-step on the real engine, plus seeded longer runs with up to 4 groups, plus unthrottled bursts of 230-300 rows against a window goroutine held at its first row (queue size 200); distinct = distinct (SQL, rows)")
     res.assumptions = ASSUME
     for pred in (["count>=3|max>=3&min<0", "avg>=2"] if quick else [m for m in MENU if ":" not in m]):
         mr = 5 if quick else 6
